@@ -90,7 +90,7 @@ pub fn c11_step(cx: &StepCtx<'_, impl Sized>, _info: &InputInfo, st: &mut C11Sta
         let rec = pre.record_at(member.addr);
         let same = rec.is_some_and(|r| r.id() == member && r.incarnation() == *inc);
         let rec_down = rec.is_some_and(|r| r.state() == State::Down);
-        let snap_same = cx.pre.f.verif_snapshot() == cx.post.verif_snapshot();
+        let snap_same = obs_snapshot(&cx.pre.f) == obs_snapshot(cx.post);
         if current && same && !rec_down {
             C11_ROWS[0].fetch_add(1, Relaxed);
             // takes effect
@@ -194,7 +194,7 @@ pub fn c13_step(cx: &StepCtx<'_, impl Sized>, st: &mut C13State, conn_pre: Conn,
         if cx.timer_was_outstanding && !matches!(t, TimerKey::RemoveDown(_)) {
             let stale = st.issued.get(t).is_some_and(|e| *e != st.epoch);
             if stale {
-                let snap_same = cx.pre.f.verif_snapshot() == cx.post.verif_snapshot();
+                let snap_same = obs_snapshot(&cx.pre.f) == obs_snapshot(cx.post);
                 if !cx.out.effects.is_empty() || !snap_same || !cx.out.res.is_ok() {
                     return Err(viol(
                         "c13:stale-timer-had-effect",
@@ -287,7 +287,7 @@ pub fn c13_state(node: &Node<crate::spec_core::CoreMon>, _view: &View, cfg: &Cfg
         }
         let mut c = node.f.clone();
         let out = run_event(&mut c, &Ev::Timer(*t), &[]);
-        let eff = !out.effects.is_empty() || c.verif_snapshot() != snap || out.panic.is_some();
+        let eff = !out.effects.is_empty() || obs_snapshot(&c) != obs_snapshot(&node.f) || out.panic.is_some();
         if eff {
             match task_of(t) {
                 Some(k) => effective[k] += 1,
